@@ -1,6 +1,6 @@
 ----------------------------- MODULE MC_Disabled -----------------------------
 EXTENDS Disabled, TLC, Json
-CONSTANTS Kinds,      \* set of handler lists
+CONSTANTS Kinds,      \* set of handler lists (Greedy, of Disabled.tla, is a constant too)
           MaxOps, DoEmit
 VARIABLES kind, x, known, n, obs
 vars == <<kind, x, known, n, obs>>
@@ -32,7 +32,7 @@ InvNoneFalse == (obs.op = "verify" /\ x = "None") => obs.res = <<"False">>
 \* what disable() produces is recognised as disabled and stays so when disabled again
 InvDisableDisables == obs.op = "disable" => (IsDisabled(kind, known, x) /\ Disable(kind, x)[1] = "ok" /\ IsDisabled(kind, known, Disable(kind, x)[2]))
 \* disable then enable restores the original hash exactly (schemes that embed it)
-RestoreExact == [][(obs'.op = "enable" /\ obs'.res[1] = "ok" /\ obs'.arg \in {"M1H", "M2H"}) => x' = "H"]_vars
+RestoreExact == [][(obs'.op = "enable" /\ obs'.res[1] = "ok" /\ obs'.arg \in {"M1H", "M2H"} /\ Ident(kind, known, obs'.arg) \in {"unix1", "unix2"}) => x' = "H"]_vars
 \* an embedded hash can always be got back when the string is attributed to a unix-style handler
 RestoreAlways == [][(obs'.op = "enable" /\ obs'.arg \in {"M1H", "M2H"} /\ Ident(kind, known, obs'.arg) \in {"unix1", "unix2"}) => obs'.res = <<"ok", "H">>]_vars
 \* enabling a normal hash returns it unchanged
